@@ -167,6 +167,12 @@ func runC05Case(run *ev.Run, cs c05Case) {
 			viol("latency-too-large", "free-running", fmt.Sprintf("seq %d ends at %v, after the whole attack had ended (%v)", r.Seq, ts+r.Latency, tEnd), r, nil)
 			break
 		}
+		// the result's end (timestamp + latency) is when the hit was over: not before the
+		// transport had returned the response, however long the targeter took before the request
+		if ts+r.Latency < e.TExit {
+			viol("end-before-transport-exit", "free-running", fmt.Sprintf("seq %d: timestamp %v + latency %v = %v, but the transport returned the response only at %v", r.Seq, ts, r.Latency, ts+r.Latency, e.TExit), r, nil)
+			break
+		}
 		if !r.End().Equal(r.Timestamp.Add(r.Latency)) {
 			viol("end-mismatch", "free-running", fmt.Sprintf("seq %d End() != Timestamp+Latency", r.Seq), r, nil)
 			break
